@@ -576,14 +576,29 @@ class C06(Monitor):
         if op["kind"] == "swap" and st.ok and op["sem"]["named"] not in op["sem"]["pair"].assets:
             self.outside_offer(st)
             return
-        if op["kind"] != "swap" or not C12.same_offer(op):
+        if op["kind"] != "swap":
             return
         sem = op["sem"]
         p = sem["pair"]
+        donated = 0
+        if not C12.same_offer(op):
+            # a direct swap that attaches, next to the exactly declared offer, some of the pair's OTHER coin: that coin is a
+            # donation arriving in the same transaction, so the swap is priced against (x, y + donation); the quote taken
+            # before it is not comparable, the execution is
+            if sem["named"] not in p.assets or sem.get("entry") != "direct" or not st.ok:
+                return
+            other_ = p.other(sem["named"])
+            got = dict()
+            for d_, a_ in sem.get("funds", []):
+                got[d_] = got.get(d_, 0) + a_
+            if sem["named"][0] != "n" or got.get(sem["named"][1], 0) != sem["named_amt"] or other_[0] != "n" or not got.get(other_[1]):
+                return
+            donated = got[other_[1]]
+            acc.count("sys_swaps_with_the_other_coin_attached")
         i = p.idx(sem["named"])
         r = p.reserves(st.pre)
-        x, y, a = r[i], r[1 - i], sem["named_amt"]
-        sim = sim_of(st)
+        x, y, a = r[i], r[1 - i] + donated, sem["named_amt"]
+        sim = sim_of(st) if not donated else None
         if sim and sim[0] != "fail":
             acc.ev()
             acc.cls("sim", p.kind(), bucket(x), bucket(y), bucket(a), "c" + bucket(p.rate))
@@ -600,7 +615,7 @@ class C06(Monitor):
                 n, sp, cm = int(e["return_amount"]), int(e["spread_amount"]), int(e["commission_amount"])
                 probs = band_problems(x, y, a, p.rate, n, sp, cm)
                 other = p.other(sem["named"])
-                dpair = st.post.get(p.addr, other[1]) - st.pre.get(p.addr, other[1])
+                dpair = st.post.get(p.addr, other[1]) - st.pre.get(p.addr, other[1]) - donated
                 rcv = sem["to"] or op["actor"]
                 if rcv != p.addr and dpair != -n:
                     probs.append("ask reserve changed by %d, not by -return (%d): commission did not stay in the pool" % (dpair, n))
@@ -904,7 +919,7 @@ class C10(Monitor):
                 return
             ret, spread = sim[0], sim[1]
         acc.ev()
-        v = guard_verdict(bp, s, offer, ret, spread, do, dr, "ok" if st.ok else ("guard" if guard_reject else "other"))
+        v = guard_verdict(bp, s, offer, ret, spread, do, dr, "ok" if st.ok else ("guard" if guard_reject else "unrelated"))
         acc.cls("sys", "belief" if bp is not None else "spreadonly", "ok" if st.ok else ("guard" if guard_reject else "other"),
                 "do%s" % ("<" if do < dr else (">" if do > dr else "=")), "stale%s" % sem.get("stale", "-"), p.kind())
         acc.count("sys_guarded_" + ("ok" if st.ok else ("guard_reject" if guard_reject else "other")))
@@ -922,7 +937,19 @@ def guard_verdict(bp, s, offer, ret, spread, do, dr, outcome):
     o1 = offer * 10 ** max(dr - do, 0)
     r1 = ret * 10 ** max(do - dr, 0)
     sp1 = spread * 10 ** max(do - dr, 0)
-    if s is None or outcome == "other":
+    if s is None or outcome == "unrelated":      # (system level: a failure that cannot be attributed to the guard)
+        return None
+    if outcome == "other":
+        # an abort INSIDE the guard (function level only) is a rejection by the guard. Outside its representable domain the
+        # unchanged guard aborts too and is not judged: decimals 20 or more apart (10^diff as u64), normalised amounts beyond
+        # 128 bits, a zero belief price, a zero return+spread.
+        if abs(do - dr) >= 20 or max(o1, r1, sp1) > M128 or bp == 0 or (bp is None and r1 + sp1 == 0):
+            return None
+        if bp is not None:
+            if r1 * bp * D >= o1 * D * (D - s):
+                return "aborted inside the guard although return' %d >= (offer'/p)(1-s)" % r1
+        elif sp1 * D <= s * (r1 + sp1):
+            return "aborted inside the guard although spread/(return+spread) = %d/%d <= s" % (sp1, r1 + sp1)
         return None
     if bp is not None:
         if bp == 0:
